@@ -218,10 +218,11 @@ def Absent (env : Env) (s : State) (txs : List Tx) : Prop :=
     s.coins.getCoin (markerOf env f) = none ∧ (createdOf s.height txs).get (markerOf env f) = none
 
 theorem cns_accept {env : Env} {s : State} {txs : List Tx} {rel : Relevant} (hpre : SPre env s txs)
-    (h1 : loadRelevantCoins s txs = .ok rel) (hstat : NextStatic env s txs) (habs : Absent env s txs) :
+    (h1 : loadRelevantCoins s txs = .ok rel) (hstat : NextStatic env s txs) (habs : Absent env s txs)
+    (hfr : ∀ a ∈ txs, s.txs.any (fun u => u.hash = a.hash) = false) :
     ∃ next, createNextState env s txs rel s.tip906 = .ok next ∧ (s.tip906 = true → CountsOk next.coins) := by
   have hinv0 : NextInv env s (startState s ((outputIds txs).foldl (insStep rel s.tip906) s.coins)) txs := by
-    refine ⟨rfl, rfl, rfl, ?_, ?_⟩
+    refine ⟨rfl, rfl, rfl, ?_, ?_, hfr⟩
     · intro ht
       simp only [startState]
       rw [ht]
@@ -243,6 +244,8 @@ structure Facts (env : Env) (s : State) (txs : List Tx) (fb : Header) (rel : Rel
   hsp : speedFold env s rel txs = .ok sp
   stat : NextStatic env s txs
   abs : Absent env s txs
+  /-- no transaction of the batch is already in the block (the `DuplicateTx` guard of `createNextState`) -/
+  freshTx : ∀ a ∈ txs, s.txs.any (fun u => u.hash = a.hash) = false
   network : s'.network = s.network
   height : s'.height = s.height
   feeMultiplier : s'.feeMultiplier = s.feeMultiplier
@@ -271,15 +274,16 @@ theorem batch_facts {env : Env} {s s' : State} {txs : List Tx} {fb : Header} (hp
   obtain ⟨i1, i2, i3, i4, i5, i6, i7, i8, i9, i10, i11⟩ := nextFold_info env _ txs _ _ h0
   simp only [startState] at i1 i2 i3 i4 i5 i6 i7 i8 i9 i10 i11
   have hstat : NextStatic env s txs :=
-    ⟨nodup_of_hashes hpre.hashes, hpre.dist, hpre.notInp, fun f hf hk => (i11 f hf).2 hk,
+    ⟨nodup_of_hashes hpre.hashes, hpre.hashes, hpre.dist, hpre.notInp, fun f hf hk => (i11 f hf).2 hk,
       fun a ha => (i11 a ha).1⟩
   have habs0 := nextFold_absent env _ txs _ _ h0 hpre.notInp
   have habs : Absent env s txs := fun f hf hk => (start_none_iff _ h1 _).mp (habs0 f hf hk)
-  obtain ⟨next', h5', hc'⟩ := cns_accept hpre h1 hstat habs
+  have hfr : ∀ a ∈ txs, s.txs.any (fun u => u.hash = a.hash) = false := (nextFold_fresh env _ txs _ _ h0).2
+  obtain ⟨next', h5', hc'⟩ := cns_accept hpre h1 hstat habs hfr
   rw [h5] at h5'
   cases h5'
   subst hs'
-  refine ⟨rel, sp, ⟨h1, hstk, h3, h4, hstat, habs, i1, i2, i3, i4, i5, rfl, ?_, i8, i9, i10, ?_, hc', ?_⟩⟩
+  refine ⟨rel, sp, ⟨h1, hstk, h3, h4, hstat, habs, hfr, i1, i2, i3, i4, i5, rfl, ?_, i8, i9, i10, ?_, hc', ?_⟩⟩
   · intro k
     simp only [finish]
     rw [stakeFold_get, i6]
@@ -293,9 +297,10 @@ theorem batch_accept {env : Env} {s : State} {txs : List Tx} {fb : Header} {rel 
     (hpre : SPre env s txs) (hrel : loadRelevantCoins s txs = .ok rel)
     (hstk : ∀ a ∈ txs, ∃ v, stakeRes s a = .ok v)
     (hval : ∀ tx ∈ txs, checkTxValidity env s (lastHeaderOf s fb) tx rel (stakeMap s txs) = .ok ())
-    (hsp : speedFold env s rel txs = .ok sp) (hstat : NextStatic env s txs) (habs : Absent env s txs) :
+    (hsp : speedFold env s rel txs = .ok sp) (hstat : NextStatic env s txs) (habs : Absent env s txs)
+    (hfr : ∀ a ∈ txs, s.txs.any (fun u => u.hash = a.hash) = false) :
     ∃ s', applyBatch env s txs fb = .ok s' := by
-  obtain ⟨next, h5, -⟩ := cns_accept hpre hrel hstat habs
+  obtain ⟨next, h5, -⟩ := cns_accept hpre hrel hstat habs hfr
   exact ⟨_, applyBatch_iff.mpr ⟨rel, stakeMap s txs, sp, next, hrel, loadStake_iff.mpr ⟨hstk, rfl⟩,
     (Outcome.forM'_eq_ok _ _).mpr hval, hsp, h5, rfl⟩⟩
 
@@ -343,8 +348,9 @@ theorem inputs_single {t : Tx} {k : CoinID} : k ∈ [t].flatMap (·.inputs) ↔ 
   simp
 
 theorem nextStatic_sub {env : Env} {s : State} {l l' : List Tx} (h : NextStatic env s l)
-    (hsub : ∀ x ∈ l', x ∈ l) (hnd : l'.Nodup) : NextStatic env s l' where
+    (hsub : ∀ x ∈ l', x ∈ l) (hnd : l'.Nodup) (hnd' : (l'.map (·.hash)).Nodup) : NextStatic env s l' where
   nodup := hnd
+  hnodup := hnd'
   dist := fun x hx f hf => h.dist x (hsub x hx) f (hsub f hf)
   notInp := fun f hf hk u hu => h.notInp f (hsub f hf) hk u (hsub u hu)
   netOk := fun f hf => h.netOk f (hsub f hf)
@@ -353,6 +359,7 @@ theorem nextStatic_sub {env : Env} {s : State} {l l' : List Tx} (h : NextStatic 
 theorem nextStatic_congr {env : Env} {s s' : State} {l : List Tx} (h : NextStatic env s l)
     (hn : s'.network = s.network) (hf : s'.feeMultiplier = s.feeMultiplier) : NextStatic env s' l where
   nodup := h.nodup
+  hnodup := h.hnodup
   dist := h.dist
   notInp := h.notInp
   netOk := fun f hf' hk hm => h.netOk f hf' hk (hn ▸ hm)
@@ -598,7 +605,11 @@ theorem head_accept (hpre : SPre env s (t :: rest)) (hdep : Dep t rest)
     simp only [List.mem_cons, List.not_mem_nil, or_false] at ha
     subst ha
     exact spStep_congr env s s a b (rel_head hdep F.hrel hrt) rfl rfl rfl
-  refine batch_accept hpre.head hrt ?_ ?_ hspt (nextStatic_sub F.stat ?_ (by simp)) (abs_head F.abs)
+  refine batch_accept hpre.head hrt ?_ ?_ hspt (nextStatic_sub F.stat ?_ (by simp) (by simp)) (abs_head F.abs)
+    (fun a ha => by
+      simp only [List.mem_cons, List.not_mem_nil, or_false] at ha
+      subst ha
+      exact F.freshTx a List.mem_cons_self)
   · intro a ha
     simp only [List.mem_cons, List.not_mem_nil, or_false] at ha
     subst ha
@@ -644,7 +655,14 @@ theorem tail_accept (hpre : SPre env s (t :: rest)) (hdep : Dep t rest)
           · exact this)
   refine batch_accept (step_pre hpre Ft) hrr ?_ ?_ ((speed_iff hpre hdep Ft F.hrel hrr hdisj sp).mp F.hsp)
     (nextStatic_congr (nextStatic_sub F.stat (fun x hx => List.mem_cons_of_mem _ hx)
-      (List.nodup_cons.mp F.stat.nodup).2) Ft.network Ft.feeMultiplier) (abs_tail hpre Ft F.abs)
+      (List.nodup_cons.mp F.stat.nodup).2 hpre.tail.hashes) Ft.network Ft.feeMultiplier) (abs_tail hpre Ft F.abs)
+    (fun a ha => by
+      rw [Ft.txsEq, List.foldl_cons, List.foldl_nil, any_hash_insertTx,
+        F.freshTx a (List.mem_cons_of_mem _ ha), Bool.false_or]
+      have hn := hpre.hashes
+      rw [List.map_cons, List.nodup_cons] at hn
+      have : t.hash ≠ a.hash := fun e => hn.1 (List.mem_map.mpr ⟨a, ha, e.symm⟩)
+      simpa using this)
   · intro a ha
     rw [stakeRes_congr Ft.network Ft.height]
     exact F.hstk a (List.mem_cons_of_mem _ ha)
@@ -693,7 +711,13 @@ theorem join_accept (hpre : SPre env s (t :: rest)) (hdep : Dep t rest)
           right
           simp [h'])
   refine batch_accept hpre hr ?_ ?_ ((speed_iff hpre hdep Ft hr Fr.hrel hdisj spr).mpr Fr.hsp)
-    ⟨nodup_of_hashes hpre.hashes, hpre.dist, hpre.notInp, ?_, ?_⟩ (abs_join hpre Ft hgf Ft.abs Fr.abs)
+    ⟨nodup_of_hashes hpre.hashes, hpre.hashes, hpre.dist, hpre.notInp, ?_, ?_⟩ (abs_join hpre Ft hgf Ft.abs Fr.abs)
+    (fun a ha => by
+      rcases List.mem_cons.mp ha with e | h
+      · subst e; exact Ft.freshTx _ List.mem_cons_self
+      · have := Fr.freshTx a h
+        rw [Ft.txsEq, List.foldl_cons, List.foldl_nil, any_hash_insertTx, Bool.or_eq_false_iff] at this
+        exact this.1)
   · intro a ha
     rcases List.mem_cons.mp ha with e | h
     · subst e; exact Ft.hstk _ List.mem_cons_self
